@@ -85,6 +85,11 @@ fn simple_targets(m: &Model, al: &Alphabet) -> Vec<TSimple> {
                     v.push(TSimple::Ann { ann: id.clone(), off: Some(Off::simple(0, 1)) });
                     if al.rich {
                         v.push(TSimple::Ann { ann: id.clone(), off: Some(Off { b: Cur::E(-1), e: Cur::E(0) }) });
+                        if e - b >= 2 {
+                            // end-aligned cursors that stop short of the container's end, and a mixed pair
+                            v.push(TSimple::Ann { ann: id.clone(), off: Some(Off { b: Cur::E(-2), e: Cur::E(-1) }) });
+                            v.push(TSimple::Ann { ann: id.clone(), off: Some(Off { b: Cur::B(1), e: Cur::E(-1) }) });
+                        }
                     }
                 }
             }
@@ -121,6 +126,11 @@ fn complex_targets(m: &Model, al: &Alphabet) -> Vec<Target> {
             // an end-aligned part listed first (parts are stored in textual order: two begin-aligned neighbours, then the end-aligned one)
             v.push(Target { kind: TKind::Multi, parts: vec![TSimple::Text { res: "r0".into(), off: Off { b: Cur::E(-2), e: Cur::E(0) } }, t("r0", 0, 2), t("r0", 2, 3)] });
         }
+    }
+    if al.rich && m.res_idx("r0").is_some() && m.res_idx("r1").is_some() {
+        // three parts over two resources: two neighbours in r0, then a selection of r1 (whose handle may continue r0's numbering)
+        v.push(Target { kind: TKind::Multi, parts: vec![t("r0", 0, 2), t("r0", 2, 3), t("r1", 0, 1)] });
+        v.push(Target { kind: TKind::Directional, parts: vec![t("r0", 0, 2), t("r0", 2, 3), t("r1", 2, 3)] });
     }
     let live = m.live_anns();
     let named: Vec<usize> = live.iter().rev().copied().filter(|i| m.anns[*i].as_ref().unwrap().id.is_some()).take(2).collect();
